@@ -17,8 +17,10 @@ the documented domain and every content at once (nothing is executed):
     reaches the end marker exactly after the last/first character, * yields the element at the index
  R3 const members perform no write into the buffer or the length
 
-Not decided: results of compare / find family / starts_with / ends_with / contains (data-dependent
-loops over memcmp), sprintf's formatted text, overloads taking iterators of std::string."""
+ R7 searching observers (find family, starts_with/ends_with/contains): linear-search proof of the scan
+ R8 compare(): sign of memcmp over the common length, else sign of the length difference
+
+Not decided: sprintf's formatted text, overloads taking iterators of std::string."""
 import os
 import re
 
@@ -890,7 +892,10 @@ def run(chk):
         'to be min( L, length of the std::string result) and a symbolic position below the new length is resolved '
         'backwards through the log and proved to hold the byte std::string has there (old text at the right offset, '
         'the right byte of the right source, the fill character), for every content and every argument value at '
-        'once; (R1) truth table of operator==/!=. Results of the searching and comparing observers are not decided.'
+        'once; (R1) truth table of operator==/!=; (R5/R6) simple observers and iteration; (R7) the find family, '
+        'starts_with/ends_with/contains by a linear-search proof of their scan loops (first/last matching candidate, '
+        'else npos/false); (R8) compare(): sign of memcmp over the common length, else sign of the length difference. '
+        "sprintf's formatted text is not decided."
         % grid)
     chk.assumptions = ['documented domain: insert index <= length, erase index <= length, replace pos < length, '
                        'sub-range positions <= source length, ( const char*, count): count <= strlen',
